@@ -571,9 +571,12 @@ func runC12Strings(r *Run) {
 			}
 		}
 	}
-	pats := []string{"a", "^a", "a$", "a.c", "^a.b$", "A", "[ab]+", "a|b", "^$", ".", "\\.", "a b", "(?i)a", "^a$"}
+	pats := []string{"a", "^a", "a$", "a.c", "^a.b$", "A", "[ab]+", "a|b", "^$", ".", "\\.", "a b", "(?i)a", "^a$",
+		// letters whose simple case folding is not lower-casing (long s, final sigma, micro sign, dotted I, Kelvin sign), and their partners
+		"wasser", "s", "ſ", "σ", "ς", "Σ", "µ", "μ", "i", "İ", "ı", "k", "K", "ǆ", "ǅ", "ß", "SS", "é", "É", "\\E", "a\\Eb", "\\Qa"}
 	flagSets := []string{"", "i", "s", "m", "q", "is", "im", "sm", "iq", "sq", "mq", "ism", "isq", "imq", "smq", "ismq"}
-	subjects := []string{"s:a", "s:A", "s:ab", "s:ba", "s:a\nb", "s:b\na", "s:a.c", "s:abc", "s:a\nc", "s:", "s:\n", "s:a b", "s:^a", "s:A.C", "s:.", "i:1", "j:null"}
+	subjects := []string{"s:a", "s:A", "s:ab", "s:ba", "s:a\nb", "s:b\na", "s:a.c", "s:abc", "s:a\nc", "s:", "s:\n", "s:a b", "s:^a", "s:A.C", "s:.", "i:1", "j:null",
+		"s:Waſſer", "s:WASSER", "s:ſ", "s:S", "s:ς", "s:Σ", "s:σ", "s:µ", "s:Μ", "s:İ", "s:I", "s:ı", "s:K", "s:k", "s:ǅ", "s:Ǆ", "s:ß", "s:ss", "s:É", "s:e\u0301", "s:\\E", "s:a\\Eb", "s:ab"}
 	r.Bound("regex_cases", len(pats)*len(flagSets)*len(subjects))
 	for _, p := range pats {
 		for _, f := range flagSets {
